@@ -5,7 +5,7 @@ VARIABLES hist, done
 gvars == <<vars, hist, done>>
 GenInit == Init /\ hist = <<>> /\ done = FALSE
 GenStep == /\ ~done /\ Next /\ hist' = Append(hist, last') /\ done' = done
-Stop == s.calls = MaxCalls /\ s.now = MaxT /\ s.qh = "idle" /\ s.sh = "wait" /\ \A t \in Tasks : ~s.running[t]
+Stop == s.calls = MaxCalls /\ s.now = MaxT /\ s.qh = "idle" /\ s.sh = "wait" /\ ~s.notif /\ \A t \in Tasks : ~s.running[t]
 GenEmit == /\ ~done /\ Stop /\ done' = TRUE
            /\ PrintT(<<"@@", ToJson([n |-> NTasks, md |-> MD, steps |-> hist])>>)
            /\ UNCHANGED <<vars, hist>>
